@@ -63,6 +63,37 @@ fn same_t(a: &(Result<TransformExtensionList, LocErr>, usize), b: &(Result<Trans
         _ => false,
     }
 }
+/// observational equality of two attribute-only -u- results: same outcome, same attributes() sequence,
+/// no keywords on either side, same number of subtags consumed
+fn same_u_attrs(a: &(Result<UnicodeExtensionList, LocErr>, usize), b: &(Result<UnicodeExtensionList, LocErr>, usize)) -> bool {
+    match (&a.0, &b.0) {
+        (Ok(x), Ok(y)) => {
+            let mut ia = x.attributes();
+            let mut ib = y.attributes();
+            if ia.len() != ib.len() || x.keyword_keys().len() != 0 || y.keyword_keys().len() != 0 {
+                return false;
+            }
+            let n = ia.len();
+            let mut i = 0;
+            while i < crate::spec::VMAX {
+                if i < n {
+                    match (ia.next(), ib.next()) {
+                        (Some(p), Some(q)) => {
+                            if p != q {
+                                return false;
+                            }
+                        }
+                        _ => return false,
+                    }
+                }
+                i += 1;
+            }
+            a.1 == b.1 && x.is_empty() == y.is_empty()
+        }
+        (Err(_), Err(_)) => true,
+        _ => false,
+    }
+}
 fn recase_all<const K: usize>(a: &[Tok; K]) -> [Tok; K] {
     let mut b = *a;
     let mut i = 0;
@@ -99,24 +130,38 @@ fn t_case<const K: usize>(lens: [usize; K]) {
 
 proofs! {
 
-// -u- attributes: order and repetition do not matter
+// -u- attributes: order and repetition do not matter.  Compared through the getters (attributes()
+// element by element, no keywords): the derived `==` walks the B-tree maps of two parser results,
+// whose roots are merged with the error paths (measured: out of memory at 16 GB)
 [push, sortt] fn c09_attr_order() {
     let a1 = sym::tok_len(3);
     let a2 = sym::tok_len(3);
     let a = [a1, a2];
     let b = [a2, a1];
-    let c = [a1, a2, a1];
     h::note_toks(&a);
     let ra = h::parse_ulist_tokens(&a);
     let rb = h::parse_ulist_tokens(&b);
+    let both = spec::info(&a1).is_utype() && spec::info(&a2).is_utype();
+    cover!(both && ra.0.is_ok());
+    if both {
+        assert!(same_u_attrs(&ra, &rb), "order of -u- attributes does not matter");
+    }
+    core::mem::forget((ra, rb));
+}
+[push, sortt] fn c09_attr_repeat() {
+    let a1 = sym::tok_len(3);
+    let a2 = sym::tok_len(3);
+    let a = [a1, a2];
+    let c = [a1, a2, a1];
+    h::note_toks(&a);
+    let ra = h::parse_ulist_tokens(&a);
     let rc = h::parse_ulist_tokens(&c);
     let both = spec::info(&a1).is_utype() && spec::info(&a2).is_utype();
     cover!(both && ra.0.is_ok());
     if both {
-        assert!(same_u(&ra, &rb), "order of -u- attributes does not matter");
-        assert!(same_u(&ra, &rc), "repetition of -u- attributes does not matter");
+        assert!(same_u_attrs(&ra, &rc), "repetition of -u- attributes does not matter");
     }
-    core::mem::forget((ra, rb, rc));
+    core::mem::forget((ra, rc));
 }
 [push, sortt] fn c09_u_case_3() { u_case([3]) }
 [push, sortt] fn c09_u_case_2_3() { u_case([2, 3]) }
@@ -172,6 +217,20 @@ proofs! {
     assert!(rb.is_ok());
     assert!(same_outcome(&ra, &rb), "'-' and '_' are interchangeable");
     core::mem::forget((ra, rb));
+}
+
+// the four concrete separator spellings of one identifier (finite: enumerated, every run of the real
+// from_bytes is still under Kani's panic / overflow checks); the symbolic versions are c09_sep_langid
+// and c02_sep_* (thorough)
+[push, sortv, boxed] fn c09_sep_concrete() {
+    let want = LanguageIdentifier::from_bytes(b"en-US-macos");
+    assert!(want.is_ok());
+    let r1 = LanguageIdentifier::from_bytes(b"en_US-macos");
+    let r2 = LanguageIdentifier::from_bytes(b"en-US_macos");
+    let r3 = LanguageIdentifier::from_bytes(b"en_US_macos");
+    cover!(r3.is_ok());
+    assert!(same_outcome(&want, &r1) && same_outcome(&want, &r2) && same_outcome(&want, &r3), "'-' and '_' are interchangeable");
+    core::mem::forget((want, r1, r2, r3));
 }
 
 [push, sortv, boxed] fn c09_case_1() { case_insensitive::<1>() }
